@@ -138,3 +138,22 @@ example : (probe goodFat32 true).toOption.isSome = true ∧
     (probe goodFat16 true).toOption.isSome = true ∧
     (parseGeomF (fun i => goodFat16.getD i 0)).toOption.isSome = true := by decide +kernel
 end FatVerif.Spec
+
+namespace FatVerif.Spec
+
+theorem parseGeomF_cs_pos (rd : Nat → Nat) (g : Geom) (h : parseGeomF rd = .ok g) : 0 < g.clusterSize := by
+  unfold parseGeomF at h
+  simp only at h
+  split at h
+  · cases h
+  · rename_i hz
+    obtain ⟨e, _⟩ := checkGeom_ok _ _ _ h
+    subst e
+    obtain ⟨hb, _⟩ := geomOfBpb_base (readBpb rd)
+    unfold Geom.clusterSize
+    rw [hb.bps, hb.spc]
+    have h1 : (readBpb rd).bps ≠ 0 := fun e => hz (.inl e)
+    have h2 : (readBpb rd).spc ≠ 0 := fun e => hz (.inr e)
+    exact Nat.mul_pos (Nat.pos_of_ne_zero h1) (Nat.pos_of_ne_zero h2)
+
+end FatVerif.Spec
